@@ -9,11 +9,38 @@ import (
 
 // knownClassesOf names the known-defect classes (see gen_test.go) that a parsed tree belongs to.
 // The predicates are narrow and syntactic; a failure on a tree outside all of them is a VIOLATION.
-func knownClassesOf(trees []influxql.Expr) []string {
+func knownClassesOf(trees []influxql.Expr) []string { return knownClassesOfR(trees, true) }
+
+// rootRegexSafe: a regex that is a whole field / dimension is read back through parseRegex (un-escaping);
+// a regex that is a whole ParseExpr input is not.
+func knownClassesOfR(trees []influxql.Expr, rootRegexSafe bool) []string {
 	set := map[string]bool{}
 	for _, e := range trees {
+		// regex literals in the positions where both parsers un-escape "\/" (right side of =~ !~, call arguments)
+		safeRegex := map[*influxql.RegexLiteral]bool{}
+		if re, ok := e.(*influxql.RegexLiteral); ok && rootRegexSafe {
+			safeRegex[re] = true
+		}
 		influxql.WalkFunc(e, func(n influxql.Node) {
 			switch x := n.(type) {
+			case *influxql.BinaryExpr:
+				if re, ok := x.RHS.(*influxql.RegexLiteral); ok && (x.Op == influxql.EQREGEX || x.Op == influxql.NEQREGEX) {
+					safeRegex[re] = true
+				}
+			case *influxql.Call:
+				for _, a := range x.Args {
+					if re, ok := a.(*influxql.RegexLiteral); ok {
+						safeRegex[re] = true
+					}
+				}
+			}
+		})
+		influxql.WalkFunc(e, func(n influxql.Node) {
+			switch x := n.(type) {
+			case *influxql.RegexLiteral:
+				if x != nil && x.Val != nil && !safeRegex[x] && strings.Contains(x.Val.String(), "/") {
+					set[clsRegexOperand] = true
+				}
 			case *influxql.NumberLiteral:
 				if x.Val == math.Trunc(x.Val) && !(x.Val > math.MaxInt) && !math.IsInf(x.Val, 0) {
 					set[clsIntegralFloat] = true
@@ -38,6 +65,8 @@ func knownClassesOf(trees []influxql.Expr) []string {
 				}
 			case *influxql.CaseWhenExpr:
 				set[clsCaseWhen] = true
+			case *influxql.TimeLiteral:
+				set[clsTimeLiteral] = true
 			case *influxql.SetLiteral:
 				if x.Vals[""] {
 					set[clsEmptyInSet] = true
@@ -51,12 +80,12 @@ func knownClassesOf(trees []influxql.Expr) []string {
 				switch x.Op {
 				case influxql.BITWISE_AND, influxql.BITWISE_OR, influxql.BITWISE_XOR:
 					set[clsBitwise] = true
+				case influxql.DIV:
+					if !divSafeTail(x.LHS) {
+						set[clsDivAfterLit] = true
+					}
 				}
 				for i, ch := range []influxql.Expr{x.LHS, x.RHS} {
-					if re, ok := ch.(*influxql.RegexLiteral); ok && re != nil && re.Val != nil && strings.Contains(re.Val.String(), "/") &&
-						!((x.Op == influxql.EQREGEX || x.Op == influxql.NEQREGEX) && i == 1) {
-						set[clsRegexOperand] = true
-					}
 					cb, ok := ch.(*influxql.BinaryExpr)
 					if !ok {
 						continue
@@ -92,4 +121,21 @@ func isSignProduct(b *influxql.BinaryExpr) bool {
 	}
 	l, ok := b.LHS.(*influxql.IntegerLiteral)
 	return ok && (l.Val == -1 || l.Val == 1)
+}
+
+// divSafeTail: does the printed form of e end with a token after which the scanner reads '/' as a division?
+func divSafeTail(e influxql.Expr) bool {
+	switch x := e.(type) {
+	case *influxql.BinaryExpr:
+		return divSafeTail(x.RHS)
+	case *influxql.ParenExpr, *influxql.Call:
+		return true
+	case *influxql.VarRef:
+		return x.Type != influxql.Tag && x.Type != influxql.AnyField
+	case *influxql.NumberLiteral:
+		return !math.IsInf(x.Val, 0) && !math.IsNaN(x.Val)
+	case *influxql.IntegerLiteral, *influxql.UnsignedLiteral:
+		return true
+	}
+	return false
 }
